@@ -15,6 +15,12 @@ CLAIMS = {
     "C03": ("spec/AggOps.tla, Aggregator.tla, MC_C03.tla, TraceAggregator.tla",
             "TLC checks C03_Signatures and the refinement StackRefines (definition stack = true nesting) on the specification for all programs up to the bound; behaviours replayed into the real code compare the argument of every function directive; traces of real executions validated by TLC.",
             "strip patterns from {'', '^_p_'}; trigger ':keyword'; bounds as in evidence", "4 C03"),
+    "C01": ("spec/DocClean.tla, MC_DocClean.tla",
+            "TLC enumerates every canonical doccomment block over the character-class alphabet (indentation x body lines, with and without '#' leaders) and checks C01_CleanIsIdentity on the transcription of clean_doc_lines; every block is replayed into the real function, and a stratified share goes through the whole pipeline attached to each of 13 entry kinds at nesting depth 0-2, where the doc lines must appear once, contiguously, verbatim and inside the item's directive.",
+            "bounded line length / line count / class alphabet (one non-ASCII class); concretiser pools seeded", "4 C01"),
+    "C05": ("spec/CMakeLex.tla, CMakeGen.tla, MC_C05.tla, TraceLex.tla",
+            "The generated lexer is modelled as the step machine ANTLR runs (parallel rules by derivatives, last-accept register, rule priority, non-greedy stop, EOF symbol, error recovery); TLC builds files from the productions of cmake-language(7) with boundaries known by construction and checks RefAgree; every file is run through the real lexer/parser/Documenter (acceptance, command sequence, argument texts and positions); token streams and error spans of the real lexer on fixtures, random modules, noise strings and the modules shipped with CMake are validated character step by character step by TLC (TraceLex.tla); corpus modules that CMake itself parses must be processed cleanly.",
+            "class alphabet; bracket levels {0,1,2} in generation ({0,1,2,4,40,70,71} for the corpus); legacy constructs and BOM out of scope", "4 C05"),
     "C08": ("spec/AggOps.tla, Aggregator.tla, MC_C08a/b.tla, TraceAggregator.tla",
             "TLC checks C08_DocStemming / C08_OffRemoves on the design (Dev={}) for every flag combination of the kinds that occur; behaviours from the model of the code as it is (Dev=CurrentDev) are replayed under their flags and under defaults and the doccomment-stemming entries compared; known finding K1 is reported as KNOWN-FINDING only for cases matching its signature and the Impl prediction.",
             "flag lattice covered per configuration (16 + 64 combinations) and by random flags in binding B, not all 1024 per program", "4 C08"),
